@@ -195,8 +195,13 @@ fn nt_c17(cx: &Ctx, _c: &WCase) -> bool {
 
 // ------------------------------------------------------------------ definitions
 
-const STD: [(Profile, u32); 4] =
-    [(Profile::AnySingle, 45), (Profile::Composed, 40), (Profile::Share, 10), (Profile::ForEach, 5)];
+const STD: [(Profile, u32); 5] = [
+    (Profile::AnySingle, 42),
+    (Profile::Composed, 38),
+    (Profile::Share, 7),
+    (Profile::ShareNested, 8),
+    (Profile::ForEach, 5),
+];
 
 pub fn world_engine(prop: &str, thorough: bool) -> Option<WorldEngine> {
     let max_steps = if thorough { 48 } else { 24 };
